@@ -2,13 +2,19 @@ SPECIFICATION FineFair
 CONSTANTS
   Cons = {"s1", "s2"}
   Healthy = {}
+  Other = {}
   N = 3
   HCap = 64
   Parts = 1
+  ElemParts = 1
   WsMode = FALSE
+  EnqAcct = FALSE
+  HasDeadline = TRUE
+  Prime = FALSE
   MaxPub = 3
   MaxRead = 2
   MaxStall = 1
   MaxSweep = 0
   MaxLeave = 0
+  MaxPubB = 0
 PROPERTY EventuallyClosed
